@@ -24,11 +24,20 @@ def sh(cmd, cwd=None, env=None):
 
 
 def main():
-    src, prop, i, new_id = sys.argv[1:5]
     tier = "quick"
-    patch = os.path.join(src, "seeded%s.patch" % i)
-    demo = os.path.join(src, "demo%s.py" % i)
-    meta = json.load(open(os.path.join(src, "meta%s.json" % i)))
+    if sys.argv[1] == "--re":       # re-evaluate an entry already filed under /verif/seeded/<id>/
+        new_id = sys.argv[2]
+        d = os.path.join(HERE, "seeded", new_id)
+        meta = json.load(open(os.path.join(d, "meta.json")))
+        prop = meta["property"]
+        tmp = tempfile.mkdtemp(prefix="verif-seeded-src-")
+        patch = shutil.copy(os.path.join(d, "patch.diff"), os.path.join(tmp, "patch.diff"))
+        demo = shutil.copy(os.path.join(d, "demo.py"), os.path.join(tmp, "demo.py"))
+    else:
+        src, prop, i, new_id = sys.argv[1:5]
+        patch = os.path.join(src, "seeded%s.patch" % i)
+        demo = os.path.join(src, "demo%s.py" % i)
+        meta = json.load(open(os.path.join(src, "meta%s.json" % i)))
     wt = tempfile.mkdtemp(prefix="verif-seeded-")
     os.rmdir(wt)
     rc, o, e = sh(["git", "-C", "/repo", "worktree", "add", "-q", "--detach", wt, "HEAD"])
@@ -64,8 +73,9 @@ def main():
                 others[p2] = r2
         out = os.path.join(HERE, "seeded", new_id)
         os.makedirs(out, exist_ok=True)
-        shutil.copy(patch, os.path.join(out, "patch.diff"))
-        shutil.copy(demo, os.path.join(out, "demo.py"))
+        if os.path.abspath(patch) != os.path.abspath(os.path.join(out, "patch.diff")):
+            shutil.copy(patch, os.path.join(out, "patch.diff"))
+            shutil.copy(demo, os.path.join(out, "demo.py"))
         # keep one minimised replay of the detection as an example
         rep = None
         for l in viol[:1]:
